@@ -53,6 +53,15 @@ type simFace struct {
 	scope defn.Scope
 	link  defn.LinkType
 	sink  *[]emission
+	held  *[]heldPkt
+}
+
+// heldPkt: a packet as it was handed to a face (the slices themselves, which a real link service keeps in its send
+// queue until it encodes the frame) next to copies taken at that moment.
+type heldPkt struct {
+	face             uint64
+	rawRef, tokRef   []byte
+	rawCopy, tokCopy []byte
 }
 
 func (f *simFace) String() string          { return fmt.Sprintf("simface-%d", f.id) }
@@ -85,6 +94,12 @@ func (f *simFace) SendPacket(out dispatch.OutPkt) {
 		e.name = nstr(p.Data.NameV)
 	}
 	*f.sink = append(*f.sink, e)
+	if f.held != nil {
+		*f.held = append(*f.held, heldPkt{face: f.id, rawRef: out.Pkt.Raw, tokRef: out.PitToken, rawCopy: e.raw, tokCopy: e.token})
+		if len(*f.held) > 24 {
+			*f.held = (*f.held)[len(*f.held)-24:]
+		}
+	}
 }
 
 func nstr(n enc.Name) string {
@@ -298,6 +313,7 @@ type runner struct {
 	th        *fw.Thread
 	pitcs     *table.PitCsTree
 	sink      []emission
+	held      []heldPkt
 	start     time.Time
 	res       *kit.Result
 	viol      []*kit.Violation
@@ -380,7 +396,7 @@ func (r *runner) setup() {
 		dead: map[string][]deadRec{}, firstSeen: map[string]time.Duration{}, regions: c.Regions, lastEmitTo: map[string][]byte{}}
 	r.m = m
 	for _, f := range c.Faces {
-		sf := &simFace{id: f.ID, scope: defn.NonLocal, link: defn.PointToPoint, sink: &r.sink}
+		sf := &simFace{id: f.ID, scope: defn.NonLocal, link: defn.PointToPoint, sink: &r.sink, held: &r.held}
 		if f.Scope == "local" {
 			sf.scope = defn.Local
 		}
@@ -456,6 +472,14 @@ func (r *runner) run() {
 		r.step = i
 		r.sink = r.sink[:0]
 		r.viol = r.viol[:0]
+		// what was handed to a face belongs to that face: it sits in the face's send queue until the frame is
+		// encoded, and must read the same then
+		for _, h := range r.held {
+			if !bytes.Equal(h.tokRef, h.tokCopy) || !bytes.Equal(h.rawRef, h.rawCopy) {
+				r.fail("C01/packet-changed-after-hand-over", "", "a packet handed to face %d earlier (token %x) reads differently now (token %x): the forwarder reused its bytes while the face still holds them", h.face, h.tokCopy, h.tokRef)
+				break
+			}
+		}
 		switch op.Op {
 		case "interest":
 			r.doInterest(&op)
@@ -1275,6 +1299,12 @@ func (r *runner) doData(op *Op) {
 				continue
 			}
 			if lh && fm.scope == defn.NonLocal {
+				continue
+			}
+			if now > rec.mayUntil {
+				// every Interest this face sent for the entry has outlived its lifetime: the face holds no
+				// pending Interest any more, although the entry lives on for the other faces' sake
+				r.ctx.Probe("in-record-expired-before-its-entry")
 				continue
 			}
 			must := rec.clean && now < rec.mustUntil && f != op.Face && e.satisfiedAt < 0 && !mayOnly[e]
